@@ -192,6 +192,59 @@ def masked_invalid(a, copy=True):
     return res
 
 
+def _median_lanes(a, axis, keepdims, use_mask):
+    """median of an object-dtype array along one axis: python sort per lane
+    (comparisons of symbolic scalars fork); use_mask: masked cells are left
+    out (numpy.ma.median), otherwise the stored data are used as they are
+    (numpy.median on a masked array ignores the mask)"""
+    data = _np.ma.getdata(a)
+    mask = _np.ma.getmaskarray(a) if use_mask else \
+        _np.zeros(data.shape, dtype=bool)
+    if axis is None:
+        data, mask, axis_ = data.reshape(-1), mask.reshape(-1), 0
+        oshape = (1,) * _np.ndim(a) if keepdims else ()
+    else:
+        axis_ = axis % data.ndim
+        oshape = tuple(1 if i == axis_ else n
+                       for i, n in enumerate(data.shape)) if keepdims else \
+            tuple(n for i, n in enumerate(data.shape) if i != axis_)
+    d2 = _np.moveaxis(data, axis_, -1)
+    m2 = _np.moveaxis(mask, axis_, -1)
+    lanes = d2.reshape(-1, d2.shape[-1]) if d2.ndim > 1 else d2.reshape(1, -1)
+    lmask = m2.reshape(lanes.shape)
+    out = _np.empty(lanes.shape[0], dtype=object)
+    om = _np.zeros(lanes.shape[0], dtype=bool)
+    for i in range(lanes.shape[0]):
+        live = [x for x, m in zip(lanes[i], lmask[i]) if not m]
+        if not live:
+            out[i], om[i] = 0, True
+            continue
+        live = sorted(live)
+        n = len(live)
+        out[i] = live[n // 2] if n % 2 else (live[n // 2 - 1] +
+                                             live[n // 2]) / 2
+    out = out.reshape(oshape)
+    om = om.reshape(oshape)
+    if use_mask:
+        return _np.ma.MaskedArray(out, mask=om)
+    return out
+
+
+def ma_median(a, axis=None, out=None, overwrite_input=False, keepdims=False):
+    if not _needs(_np.ma.getdata(a)):
+        return _np.ma.median(a, axis=axis, out=out,
+                             overwrite_input=overwrite_input,
+                             keepdims=keepdims)
+    return _median_lanes(a, axis, keepdims, True)
+
+
+def np_median(a, axis=None, out=None, overwrite_input=False, keepdims=False):
+    if not _needs(_np.ma.getdata(a)):
+        return _np.median(a, axis=axis, out=out,
+                          overwrite_input=overwrite_input, keepdims=keepdims)
+    return _median_lanes(a, axis, keepdims, False)
+
+
 class _ArrMeta(type):
     """isinstance(x, shim.ndarray / shim.ma.MaskedArray) must accept the real
     numpy classes; library subclasses keep normal semantics"""
@@ -919,6 +972,7 @@ def make_numpy_shim():
         over[_n] = _wrap_sym(getattr(_np, _n))
     over['ndarray'] = SymNDArray
     over['isclose'] = isclose
+    over['median'] = np_median
     over['allclose'] = allclose
     over['sqrt'] = lambda a, **k: _map(sym_sqrt, a) if _needs(a) \
         else _np.sqrt(a, **k)
@@ -927,6 +981,7 @@ def make_numpy_shim():
         'masked_array': SymMaskedArray,
         'masked_invalid': masked_invalid,
         'masked_values': masked_values,
+        'median': ma_median,
         'floor': over['floor'], 'ceil': over['ceil'], 'round': _round,
         'around': _round,
     }
